@@ -604,6 +604,11 @@ func cmdRunOne(prop, partName string, idx int) int {
 		for _, l := range r.Trace {
 			fmt.Println(l)
 		}
+		if os.Getenv("VERIF_TRACE_DRAWS") != "" {
+			for i, d := range r.Decoded {
+				fmt.Printf("draw %d %s\n", i, d)
+			}
+		}
 		fmt.Printf("hash=%s tape=%d steps=%d path=%s trivial=%v stats=%v\n", r.Hash, r.TapeLen, r.Steps, r.Path, r.Trivial, r.Stats)
 		if r.Sample != nil {
 			fmt.Printf("sample: %s\n", string(r.Sample))
